@@ -34,6 +34,15 @@ def direct(ctx, strings):
             ctx.violation('harness failure in the direct run', dict(text=s, result=str(r)[:300])); continue
         for what in r.get('bad', []):
             ctx.violation(what['what'], dict(text=s, **what), dict(kind=what['kind'], text=s, exc=what.get('exc')))
+    # the same typing checks on the stock classes after subclasses registered implicit resolvers of their own (separate workers)
+    hist = [s for s in matched if len(s) < 12][:ctx.n(1500, 15000)] + ['1e3', '-2E5', '6e23', '1e+3', 'xx', 'anything', '12e03', '1E3']
+    res = vlib.run_impl('c08direct', [['hist', s] for s in hist])
+    for s, r in zip(hist, res):
+        ctx.count('direct_after_subclass_registration')
+        if not isinstance(r, dict):
+            ctx.violation('harness failure in the direct run', dict(text=s, result=str(r)[:300])); continue
+        for what in r.get('bad', []):
+            ctx.violation('after a subclass registered implicit resolvers: ' + what['what'], dict(text=s, history='subclass add_implicit_resolver', **what), dict(kind=what['kind'], text=s, exc=what.get('exc')))
     # dump side over generated values
     vals = []
     for _ in range(ctx.n(3000, 30000)):
